@@ -572,7 +572,7 @@ class Enumerator:
         for k in [k for k in st.val if token in k]:
             del st.val[k]
 
-    def _loop_common(self, node, st1: St, body_st: St, kind: str, itertext: str, tag: str, exit_test: ast.expr | None):
+    def _loop_common(self, node, st1: St, body_st: St, kind: str, itertext: str, tag: str, exit_test: ast.expr | None, iter_term: ast.expr | None = None):
         """Enumerate the body once; build continuations (a)/(b)/(c)."""
         names = _assigned_names(node.body)
         attrs = _stored_attrs(node.body)
@@ -581,7 +581,7 @@ class Enumerator:
         body_res = self.exec_block(node.body, body_st)
         paths = [Path(s.evs, s.val, o) for s, o in body_res]
         out: list[tuple[St, tuple]] = []
-        L = Ev("loop", itertext, node, render(node).split("\n")[0], {"paths": paths, "kind": kind}, st1.fn, st1.depth)
+        L = Ev("loop", itertext, node, render(node).split("\n")[0], {"paths": paths, "kind": kind, "iter_term": iter_term}, st1.fn, st1.depth, st1.selfcls, st1.selfpath)
         # (a) normal completion (zero or more iterations, none breaking)
         may_complete = any(p.outcome in (NORMAL, CONTINUE) for p in paths) or True
         if may_complete:
@@ -620,7 +620,7 @@ class Enumerator:
             elem = self.cfg.loop_elem(s, it, st1) or ast.Call(ast.Name("$elem", ast.Load()), [it], [])
             for st_b, e in self.bind(s.target, elem, body_st, s, quiet=True):
                 pass
-            out.extend(self._loop_common(s, st1, body_st, "for", render(it), tag, None))
+            out.extend(self._loop_common(s, st1, body_st, "for", render(it), tag, None, it))
         return out
 
     def s_While(self, s: ast.While, st: St):
